@@ -1,6 +1,7 @@
 package stateful
 
 import (
+	"errors"
 	"regexp"
 	"time"
 
@@ -16,6 +17,10 @@ type operationKey struct {
 var boolTrueResultContainer = resultContainer{BoolValue: true, IsBoolValue: true}
 var boolFalseResultContainer = resultContainer{BoolValue: false, IsBoolValue: true}
 var emptyResultContainer = resultContainer{}
+
+// errIntegerDivideByZero is returned for an integer or duration division or modulo by zero,
+// with the message of the runtime panic those operations would otherwise raise.
+var errIntegerDivideByZero = errors.New("runtime error: integer divide by zero")
 
 type evaluationFnInfo struct {
 	f          evaluationFn
@@ -1034,6 +1039,9 @@ var evaluationFuncs = map[operationKey]*evaluationFnInfo{
 				return emptyResultContainer, &ErrSide{error: err, IsRight: true}
 			}
 
+			if right == 0 {
+				return emptyResultContainer, &ErrSide{error: errIntegerDivideByZero, IsRight: true}
+			}
 			return resultContainer{Int64Value: left / right, IsInt64Value: true}, nil
 		},
 		returnType: ast.TInt,
@@ -1053,6 +1061,9 @@ var evaluationFuncs = map[operationKey]*evaluationFnInfo{
 				return emptyResultContainer, &ErrSide{error: err, IsRight: true}
 			}
 
+			if right == 0 {
+				return emptyResultContainer, &ErrSide{error: errIntegerDivideByZero, IsRight: true}
+			}
 			return resultContainer{Int64Value: left % right, IsInt64Value: true}, nil
 		},
 		returnType: ast.TInt,
@@ -1222,6 +1233,9 @@ var evaluationFuncs = map[operationKey]*evaluationFnInfo{
 				return emptyResultContainer, &ErrSide{error: err, IsRight: true}
 			}
 
+			if right == 0 {
+				return emptyResultContainer, &ErrSide{error: errIntegerDivideByZero, IsRight: true}
+			}
 			return resultContainer{Int64Value: int64(left / right), IsInt64Value: true}, nil
 		},
 		returnType: ast.TInt,
